@@ -339,7 +339,6 @@ func (e *Engine) addObligation(st *State, u *Unit, kind, label, site string, goa
 		return
 	}
 	ob.Prefix = st.scriptPrefix()
-	ob.Script = ob.Prefix + scriptGoal(goal)
 	e.obls = append(e.obls, ob)
 }
 
@@ -354,14 +353,20 @@ func (st *State) endBatch() {
 	prefix := st.scriptPrefix()
 	for _, ob := range st.pending {
 		ob.Prefix = prefix
-		ob.Script = prefix + scriptGoal(ob.goalT)
 		for _, p := range ob.Parts {
 			p.Prefix = prefix
-			p.Script = prefix + scriptGoal(p.goalT)
 		}
 		st.e.obls = append(st.e.obls, ob)
 	}
 	st.pending = nil
+}
+
+// FullScript is the stand-alone SMT-LIB script of the obligation (built on demand).
+func (ob *Obligation) FullScript() string {
+	if ob.Script != "" {
+		return ob.Script
+	}
+	return ob.Prefix + "(assert (not " + ob.Goal + "))\n(check-sat)\n(get-model)\n"
 }
 
 func scriptGoal(goal *Term) string {
@@ -440,7 +445,7 @@ func (st *State) checkEnsures(fr *Frame, results []SVal) {
 			cur := st.heapGet(st.heap, k, s, st.e.keyIsRef[k])
 			pre := st.heapGet(st.pre, k, s, st.e.keyIsRef[k])
 			var g *Term
-			if s.IsArray() && (strings.HasPrefix(k, "F|") || strings.HasPrefix(k, "B|") || strings.HasPrefix(k, "E|") || strings.HasPrefix(k, "M")) {
+			if s.IsArray() && (strings.HasPrefix(k, "F|") || strings.HasPrefix(k, "B|") || strings.HasPrefix(k, "E|") || strings.HasPrefix(k, "M") || strings.HasPrefix(k, "CB|")) {
 				i := Const("i!f", SInt)
 				g = Forall([]*Term{i}, Implies(And(Ge(i, IntLit(0)), Lt(i, Const("A0", SInt))), Eq(Select(cur, i), Select(pre, i))))
 			} else {
